@@ -19,4 +19,36 @@ package hashmap
 //@   at after (*Meta).CheckPermission ghost l0 = arg1
 //@   at after (*Meta).CheckPermission ghost i0 = arg2
 //@   at send Next assert ok && l0 == local && i0 == internal && m0 == metaOf(value)
+// C02: only valid (not deleted, not expired) records whose key has the query's prefix and whose
+// content matches the query are sent; the end of the stream is signalled exactly once
+//@   ghost var valid bool = false
+//@   ghost var vm *record.Meta = nil
+//@   ghost var keyOK bool = false
+//@   ghost var kq *query.Query = nil
+//@   ghost var kk string = ""
+//@   ghost var recOK bool = false
+//@   ghost var rq *query.Query = nil
+//@   ghost var rr record.Record = nil
+//@   ghost var fins int = 0
+//@   at after (*Meta).CheckValidity ghost valid = ret0
+//@   at after (*Meta).CheckValidity ghost vm = arg0
+//@   at after (*Query).MatchesKey ghost keyOK = ret0
+//@   at after (*Query).MatchesKey ghost kq = arg0
+//@   at after (*Query).MatchesKey ghost kk = arg1
+//@   at after (*Query).MatchesRecord ghost recOK = ret0
+//@   at after (*Query).MatchesRecord ghost rq = arg0
+//@   at after (*Query).MatchesRecord ghost rr = arg1
+//@   at send Next assert valid && vm == metaOf(value) && keyOK && kq == q && kk == key && recOK && rq == q && rr == value && value == record
+//@   at call (*Iterator).Finish assert arg0 == queryIter
+//@   at call (*Iterator).Finish ghost fins = fins + 1
+//@   at return assert fins == 1
+//@   loop 0 invariant fins == 0
+
+// maintenance removes only records that are deleted or expired, and marks only expired ones as deleted
+//@ func (*HashMap).MaintainRecordStates
+//@   requires hm != nil
+//@   nopanic off
+//@   modifies *
+//@   at mapdelete assert key == key && (meta.Deleted > 0 || (meta.Expires > 0 && meta.Expires < now))
+//@   at store Deleted assert meta.Deleted == 0 && meta.Expires > 0 && meta.Expires < now && value == meta.Expires && shadowDelete
 //@   loop 0 invariant true
